@@ -118,7 +118,18 @@ func (s *Server) Serve(l net.Listener) error {
 			return err
 		}
 
+		// Count the connection before Shutdown can start waiting: once
+		// Close or Shutdown has run, do not serve it at all.
+		s.locker.Lock()
+		select {
+		case <-s.done:
+			s.locker.Unlock()
+			c.Close()
+			continue
+		default:
+		}
 		s.wg.Add(1)
+		s.locker.Unlock()
 		go func() {
 			defer s.wg.Done()
 
